@@ -230,7 +230,7 @@ def run(ctx):
     ctx.model_check("MC_Registry", "MC_Registry_km", workers=1, heap="4g", stage="M:registry 2 goroutines x 2 calls, key-manager map, history properties")
     ctx.model_check("MC_Registry", "MC_Registry_kms", workers=1, heap="4g", stage="M:registry 2 goroutines x 2 calls, KMS client list")
     if ctx.thorough:
-        ctx.model_check("MC_Registry", "MC_Registry_3x2", workers=8, heap="8g", timeout=2400,
+        ctx.model_check("MC_Registry", "MC_Registry_3x2", workers=4, heap="8g", timeout=2400,
                         stage="M:registry 3 goroutines x 2 calls x all operations")
     # ---------------- builds: the conformance runs ARE the race-detector runs
     drv = ctx.go_build("c18", race=True)
@@ -250,7 +250,7 @@ def run(ctx):
     # ---------------- (T) primitives and handles
     plans = [("race", None, None)]
     if ctx.thorough:
-        plans += [("race-p4", 4, ctx.seed + 100), ("race-p2", 2, ctx.seed + 200), ("race-p16", 16, ctx.seed + 300)]
+        plans += [("race-p4", 4, ctx.seed + 100), ("race-p2", 2, ctx.seed + 200)]
     total_races = 0
     last = None
     for tag, procs, seed in plans:
